@@ -417,6 +417,64 @@ REPEAT_FORMS = [
 ]
 
 
+# README "Exposing Python Functions": structures are returned as JSObject / JSArray instances
+OBJRET_FORMS = [
+    ("var p = mk(10, 20); [typeof p, p.x + p.y, Object.keys(p).join(), JSON.stringify(p), 'x' in p, p.hasOwnProperty('x')]", ["object", 30, "x,y", '{"x":10,"y":20}', True, True]),
+    ("var a = arr(1, 'b', null, true, 2.5); [Array.isArray(a), a.length, JSON.stringify(a), a.join('-'), a.indexOf('b'), a.slice(1).length]", [True, 5, '[1,"b",null,true,2.5]', "1-b--true-2.5", 1, 4]),
+    ("same() === same()", True),
+    ("var s = same(); s.z = 5; same().z", 5),
+    ("mk(1, mk(2, 3)).y.x", 2),
+    ("arr(arr(1), mk(1, 2))[1].y", 2),
+    ("var a2 = arr(); a2.push(7); a2.push(8); [a2.length, a2[1]]", [2, 8]),
+    ("var q = mk('s', null); [typeof q.x, q.y === null, q.zz === undefined]", ["string", True, True]),
+    ("[1, 2].map(function(v){ return mk(v, v * 2); }).map(function(o){ return o.y; })", [2, 4]),
+    ("var o3 = mk(0, -0); [1 / o3.y, o3.x === 0]", [-INF, True]),
+    ("JSON.stringify({k: arr(mk(1, 2))})", '{"k":[{"x":1,"y":2}]}'),
+    ("var t = mk(1, 2); delete t.x; [Object.keys(t).join(), t.x === undefined]", ["y", True]),
+    ("var n = 0; for (var k in mk(1, 2)) n++; n", 2),
+    ("pyseen(mk(4, 5))", "x=4,y=5"),
+    ("var w = same(); w.fromjs = 'v'; pyseen(same())", None),
+]
+
+
+def objret_task(idxs):
+    m = engine.load()
+    from microjs import values
+
+    out = []
+    for i in idxs:
+        expr, expect = OBJRET_FORMS[i]
+
+        def mk(x, y):
+            o = values.JSObject()
+            o.set("x", x)
+            o.set("y", y)
+            return o
+
+        def arr(*a):
+            r = values.JSArray()
+            for v in a:
+                r.push(v)
+            return r
+
+        shared = mk(1, 2)
+
+        def pyseen(o):
+            # what the host finds in an object the script hands back
+            return ",".join("%s=%s" % (k, o.get(k)) for k in sorted(o.keys()) if k in ("x", "y", "fromjs"))
+
+        ctx = m.Context(time_limit=10)
+        ctx.set("mk", mk)
+        ctx.set("arr", arr)
+        ctx.set("same", lambda: shared)
+        ctx.set("pyseen", pyseen)
+        r = guarded(lambda: ctx.eval(expr))
+        if expect is None:
+            expect = "fromjs=v,x=1,y=2"
+        out.append((i, expr, expect, r))
+    return out
+
+
 def repeat_task(task):
     m = engine.load()
     out = []
@@ -699,6 +757,22 @@ def main(chk):
                 chk.violation("repeat|raises", {"sub": "repeat", "expr": expr}, "runs", got, sub="repeat")
             elif not neq(calls, expect):
                 chk.violation("repeat|argument-vectors", {"sub": "repeat", "expr": expr}, expect, calls, sub="repeat")
+    # 4d: the documented way to return structures: JSObject / JSArray instances built by the host
+    res = pool.run(objret_task, [list(range(len(OBJRET_FORMS)))], timeout=300)
+    for rb in res:
+        if isinstance(rb, (pool.HANG, pool.CRASH)):
+            chk.violation("objret|%r" % rb, {"sub": "objret"}, None, repr(rb), sub="objret")
+            continue
+        for i, expr, expect, r in rb:
+            chk.count()
+            chk.nontrivial("objret|" + expr)
+            st, got = r
+            if st != "ok":
+                chk.violation("objret|raises", {"sub": "objret", "i": i, "expr": expr}, show(expect), got, sub="objret")
+            elif not neq(got, expect):
+                chk.violation("objret|value", {"sub": "objret", "i": i, "expr": expr}, show(expect), show(got), sub="objret")
+            elif i < 3:
+                chk.sample({"sub": "objret", "expr": expr, "script_saw": show(got)}, cls="objret", per_class=3)
     # 5: interleavings
     seeds = [core.shard_seed(chk.seed, "C11", "inter", i) % (2 ** 31) for i in range(300 if quick else 6000)]
     batches = pool.chunks(seeds, 20)
@@ -729,6 +803,9 @@ def replay(rec):
         st, got = guarded(lambda: m.Context(time_limit=10).eval(case["src"]))
         exp = rec.get("expected_py")
         return {"fails": st != "ok", "expected": rec.get("expected"), "actual": show(got) if st == "ok" else got}
+    if case.get("sub") == "objret":
+        (i, expr, expect, r), = objret_task([case["i"]])
+        return {"fails": r[0] != "ok" or not neq(r[1], expect), "expected": show(expect), "actual": show(r[1]) if r[0] == "ok" else r[1]}
     if case.get("sub") == "interleave":
         (seed, steps, bad), = interleave_task([case["seed"]])
         return {"fails": bool(bad), "expected": None, "actual": bad}
